@@ -20,6 +20,14 @@ func sortSort(x *Exec, fr *Frame, st *State, site ssa.Instruction, c *ssa.CallCo
 			h := x.heapGet(st, hn, hs)
 			ref := Term{app("s_ref", d.T), "Int"}
 			x.heapSet(st, hn, mkStore(h, ref, x.declare("sorted", arraySort(x.S.Idx(), es))))
+			// remember WHICH sort was applied to this backing array last (spec builtin
+			// stablysorted(s)): code that keeps "the last of equal elements" after sorting
+			// is only right after a stable sort
+			stable := int64(0)
+			if callee := c.StaticCallee(); callee != nil && callee.Name() == "Stable" {
+				stable = 1
+			}
+			x.storeAddr(st, stableSortCell(ref), intLit(stable))
 			return Val{Typ: rt}
 		}
 	}
@@ -46,4 +54,8 @@ func rootIdent(e Expr) string {
 			return ""
 		}
 	}
+}
+
+func stableSortCell(ref Term) *Addr {
+	return &Addr{Kind: akGhost, Global: "sort$stable", Ref: ref, RootT: types.Typ[types.Int], T: types.Typ[types.Int]}
 }
